@@ -703,7 +703,7 @@ def run(env: Env) -> Outcome:
     run_cases([c for c in corpus if "workers" not in c], cfg, out, "corpus")
     run_wf_cases([c for c in corpus if "workers" in c], cfg, out)
     rng = random.Random(env.rng.randrange(1 << 30))
-    n1, n2 = env.budget(1400, 42000), env.budget(200, 6000)
+    n1, n2 = env.budget(1400, 34000), env.budget(200, 5000)
     for lo in range(0, n1, 500):
         run_cases([gen_case(rng, excl=cfg["excl"]) for _ in range(min(500, n1 - lo))], cfg, out, "direct")
     for lo in range(0, n2, 500):
@@ -719,7 +719,7 @@ def run(env: Env) -> Outcome:
     except Exception as ex:
         out.divergences.append(Divergence("resource", 0, "<driver>", repr(ex), ""))
     wrng = random.Random(env.rng.randrange(1 << 30))
-    nw = env.budget(80, 2400)
+    nw = env.budget(80, 2000)
     for lo in range(0, nw, 200):
         run_wf_cases([gen_wf_case(wrng) for _ in range(min(200, nw - lo))], cfg, out)
     return out
